@@ -351,7 +351,7 @@ def _generate_ctls_without_code_map(snapshot, start, end, config, rst_handler):
     count = 1
     for addr, size, max_count, op_id, operation, rst_args in decode(snapshot, start, end, rst_handler):
         op_bytes = snapshot[addr:addr + size]
-        if op_id == END:
+        if op_id == END and addr + size <= end:
             # Catch data-like sequences that precede a terminal instruction
             ctl_addr = _catch_data(ctls, ctl_addr, count, prev_max_count, addr, prev_op_bytes)
             ctls.append((ctl_addr, 'c'))
